@@ -189,6 +189,9 @@ func (c *Ctx) applyRuleEnsures(cc *ssa.CallCommon, res *Val, st *State, pre *Sta
 		for i := k; i < len(args); i++ {
 			env.names[fmt.Sprintf("a%d", i-k)] = args[i]
 		}
+		if id.dynamic {
+			env.names["fnval"] = c.operand(cc.Value, st)
+		}
 		if res != nil {
 			if res.K == VTuple {
 				c.bindResults(env, id.sig, res.F, nil)
@@ -222,6 +225,9 @@ func (c *Ctx) applyCallRules(id calleeID, site string, args []*Val, cc *ssa.Call
 		}
 		for i := k; i < len(args); i++ {
 			env.names[fmt.Sprintf("a%d", i-k)] = args[i]
+		}
+		if id.dynamic {
+			env.names["fnval"] = c.operand(cc.Value, st)
 		}
 		c.ruleHits[r.Name]++
 		for i, rq := range r.Requires {
